@@ -32,16 +32,16 @@ CHECKS = {
          "Complete enumeration of the portion-literal grammar for short digit strings (literal and variable), generated long numerals, and generated round trips of values of the six types through account/transaction metadata (fixed point + operational equality)."),
  "C14": ("4.C14", "mutation-based generation of texts + exhaustive prefixes against an independent reference recogniser and a crash oracle",
          "Every byte prefix of the corpus scripts plus generated mutations of corpus / grammar-complete scripts; oracle: no panic, reference recogniser (independent lexer + recursive-descent parser) agrees on valid/invalid, error positions inside the text."),
- "C15": ("4.C15", "round trip generator-tree -> layout printer -> real parser -> tree comparison incl. ranges (rapid)",
-         "Grammar-complete generated trees printed under canonical and random layouts (comments, CRLF, non-ASCII) and compared node by node, values and ranges, with the tree the real parser builds."),
+ "C15": ("4.C15", "round trip generator-tree -> layout printer -> real parser -> tree comparison incl. ranges; differential against an independent reference parser on arbitrary valid texts (rapid)",
+         "Grammar-complete generated trees printed under canonical and random layouts (comments, CRLF, lone CR, non-ASCII, comments glued to tokens) and compared node by node, values and ranges, with the tree the real parser builds; arbitrary valid texts (corpus, generated, mutated) parsed by the real parser and by an independent reference parser with spans must give the same tree."),
  "C18": ("4.C18", "mutation-based generation of texts x every cursor position with crash, range-validity and determinism oracles",
          "Typing sequences of the corpus scripts plus generated mutations, analysed twice and queried for hover / definition at every position."),
  "C16": ("4.C16", "valid-by-construction generation with a no-error oracle + name-edit generation against an independent name model (rapid)",
          "Generated statically valid scripts must receive no error-severity diagnostic; the same scripts after name edits must receive exactly the undeclared / repeated / unused reports an independent name model (over the generator's tree and printer spans) predicts."),
  "C17": ("4.C17", "differential checker-vs-interpreter over generated type-breaking edits (rapid)",
          "Generated well-typed scripts broken by one or two type-level edits are both checked and executed; a clean check must exclude static-class run-time failures (and a silent check, send-all shape failures)."),
- "C19": ("4.C19", "model-based history generation and exhaustive short histories against a fresh-state oracle; absolute navigation oracle over every position",
-         "Generated and exhaustively enumerated LSP request histories on one long-lived server state are compared, response by response and notification by notification (stdout captured), with a fresh state that only saw the latest text; navigation is checked absolutely at every cursor position of generated scripts against the printer's spans."),
+ "C19": ("4.C19", "model-based history generation and exhaustive short histories against a fresh-state oracle (in process and over the wire against the real numscript lsp process); absolute navigation oracle over every position",
+         "Generated and exhaustively enumerated LSP request histories on one long-lived server state are compared, response by response and notification by notification (stdout captured), with a fresh state that only saw the latest text; navigation is checked absolutely at every cursor position of generated scripts against the printer's spans; the same histories are framed and piped into the real server process (one answer per request id, diagnostics in order, clean exit)."),
  "C20": ("4.C20", "differential CLI-vs-library over generated scripts and input channels (process-level)",
          "The numscript binary built from the working tree is run on generated scripts through every input channel; exit status, diagnostics and JSON output are compared with what the library computes."),
 }
@@ -75,7 +75,8 @@ def main():
         "engines": [
             {"name": "script model, printers, generators", "path": "harness/gen", "serves_properties": props, "kind_free_text": "structured generation with rapid, layout printer with spans"},
             {"name": "reference interpreter", "path": "harness/model", "serves_properties": ["C03", "C04", "C05", "C06", "C07", "C08", "C09", "C12"], "kind_free_text": "reference model oracle"},
-            {"name": "reference lexer", "path": "harness/lex", "serves_properties": ["C14", "C15", "C18"], "kind_free_text": "independent lexer written from Numscript.g4"},
+            {"name": "reference lexer", "path": "harness/lex", "serves_properties": ["C14", "C15", "C18", "C19"], "kind_free_text": "independent lexer written from Numscript.g4"},
+            {"name": "reference parser", "path": "harness/syntax", "serves_properties": ["C14", "C15"], "kind_free_text": "independent recursive-descent recogniser / parser with spans written from Numscript.g4"},
             {"name": "store doubles", "path": "harness/doubles", "serves_properties": ["C10", "C11", "C12"], "kind_free_text": "recording / differential / fault-injecting stores"},
             {"name": "property checks", "path": "harness/props", "serves_properties": props, "kind_free_text": "one registered check per property, single TestProp entry point"},
             {"name": "driver", "path": "vcheck", "serves_properties": props, "kind_free_text": "build via overlay from the current tree, shard, merge evidence, findings, replay"},
